@@ -228,3 +228,30 @@ def c06_nonascii(port: int, ch: str, pos: int, rt: int, n: int) -> str:
     assume(len(ch) == 1 and 128 <= ord(ch) <= 0x9f)
     tail = 'a' * pos + ch + 'b' * (n - pos - 1)
     return _check(TYPES[rt], 'g' + tail, port, 'name', False)
+
+
+@cond(quick=dict(parts=[{'rt': r} for r in range(3)], budget=100))
+def c06_method_selection(ver: int, method: int, rt: int) -> str:
+    """the request is sent only after the server selected 'no authentication' (05 00): for every other
+    method-selection reply nothing more may be written"""
+    assume(0 <= ver <= 255 and 0 <= method <= 255)
+    assume(not (ver == 5 and method == 0))
+    with api.no_tracing():
+        f = socks._TorSocksFactory('example.com' if rt != 2 else '1.2.3.4', 443, TYPES[rt], _AppFactory() if rt == 0 else None)
+        p = f.buildProtocol(None)
+        t = fakes.ListTransport()
+        fakes.Outcome(p.when_done())
+        p.makeConnection(t)
+        first = b''.join(t.chunks)
+        t.chunks = []
+    if first != b'\x05\x01\x00':
+        return R('bad-method-selection-message', '%r', first)
+    try:
+        p.dataReceived(ver.to_bytes(1, 'big') + method.to_bytes(1, 'big'))
+    except Exception:
+        pass
+    sent = b''.join(t.chunks)
+    if sent != b'':
+        return R('request-sent-although-server-did-not-select-no-authentication', 'server said %d %d, client sent %r', ver, method, sent)
+    reached()
+    return ''
